@@ -6,6 +6,7 @@ package main
 // concrete length with symbolic ASCII bytes.
 
 import (
+	"go/types"
 	"fmt"
 	"regexp"
 	"regexp/syntax"
@@ -282,6 +283,58 @@ func intrRegexpMatchString(ex *Exec, fn *ssa.Function, a []Value, fr *Frame) Val
 
 // FindStringSubmatch is supported for patterns of the shape  <fixed-length prefix of
 // single-character classes> ( <class>+ )  — e.g. `s-maxage=(\d+)`, with or without (?i).
+// rxSubmatch is the common core of FindStringSubmatch / FindStringSubmatchIndex for the pattern
+// shape  c1..cL (C+) : found=false, or the (concretised) match position, prefix length and capture length.
+func (ex *Exec) rxSubmatch(r *rxProg, s *StringV, what string) (found bool, start, L, glen int) {
+	tb := ex.tb
+	prefix, class, ok := rxPrefixClassShape(r.re)
+	if !ok {
+		panic(unsupported(what + ": pattern shape not supported: " + r.pat))
+	}
+	bs := ex.strBytes(s)
+	ex.requireASCII(bs, "regexp."+what)
+	n := len(bs)
+	L = len(prefix)
+	inClass := func(re *syntax.Regexp, b *Term) *Term { return classMatch(ex, re, b) }
+	// matchAt[p]: prefix matches at p and bs[p+L] is in the class
+	matchAt := make([]*Term, n+1)
+	for p := 0; p <= n; p++ {
+		if p+L+1 > n {
+			matchAt[p] = tb.False
+			continue
+		}
+		conj := []*Term{}
+		for j := 0; j < L; j++ {
+			conj = append(conj, inClass(prefix[j], bs[p+j]))
+		}
+		conj = append(conj, inClass(class, bs[p+L]))
+		matchAt[p] = tb.And(conj...)
+	}
+	if !ex.branch(tb.Or(matchAt...)) {
+		return false, 0, L, 0
+	}
+	// leftmost match position
+	st := ex.i64(0)
+	for p := n; p >= 0; p-- {
+		st = tb.Ite(matchAt[p], ex.i64(int64(p)), st)
+	}
+	// run[q]: length of the maximal class run starting at q
+	run := make([]*Term, n+1)
+	run[n] = ex.i64(0)
+	for q := n - 1; q >= 0; q-- {
+		run[q] = tb.Ite(inClass(class, bs[q]), tb.Add(run[q+1], ex.i64(1)), ex.i64(0))
+	}
+	// fork on the match position and the length of the captured run: every later step
+	// (strconv.Atoi, comparisons) then works on concrete lengths
+	start = ex.concInt(st, "regexp match position")
+	gl := ex.i64(0)
+	for q := n; q >= 0; q-- {
+		gl = tb.Ite(tb.Eq(ex.i64(int64(start+L)), ex.i64(int64(q))), run[q], gl)
+	}
+	glen = ex.concInt(gl, "regexp capture length")
+	return true, start, L, glen
+}
+
 func intrRegexpFindStringSubmatch(ex *Exec, fn *ssa.Function, a []Value, fr *Frame) Value {
 	tb := ex.tb
 	r, _ := ex.rxOf(a[0])
@@ -300,61 +353,40 @@ func intrRegexpFindStringSubmatch(ex *Exec, fn *ssa.Function, a []Value, fr *Fra
 		}
 		return ex.makeStringSlice(out)
 	}
-	prefix, class, ok := rxPrefixClassShape(r.re)
-	if !ok {
-		panic(unsupported("FindStringSubmatch: pattern shape not supported: " + r.pat))
-	}
-	bs := ex.strBytes(s)
-	ex.requireASCII(bs, "regexp.FindStringSubmatch")
-	n := len(bs)
-	L := len(prefix)
-	inClass := func(re *syntax.Regexp, b *Term) *Term { return classMatch(ex, re, b) }
-	// matchAt[p]: prefix matches at p and bs[p+L] is in the class
-	matchAt := make([]*Term, n+1)
-	for p := 0; p <= n; p++ {
-		if p+L+1 > n {
-			matchAt[p] = tb.False
-			continue
-		}
-		conj := []*Term{}
-		for j := 0; j < L; j++ {
-			conj = append(conj, inClass(prefix[j], bs[p+j]))
-		}
-		conj = append(conj, inClass(class, bs[p+L]))
-		matchAt[p] = tb.And(conj...)
-	}
-	found := tb.Or(matchAt...)
-	if !ex.branch(found) {
+	found, start, L, glen := ex.rxSubmatch(r, s, "FindStringSubmatch")
+	if !found {
 		return ex.zeroStringSlice()
 	}
-	// leftmost match position
-	start := ex.i64(0)
-	for p := n; p >= 0; p-- {
-		start = tb.Ite(matchAt[p], ex.i64(int64(p)), start)
-	}
-	// run[q]: length of the maximal class run starting at q
-	run := make([]*Term, n+1)
-	run[n] = ex.i64(0)
-	for q := n - 1; q >= 0; q-- {
-		run[q] = tb.Ite(inClass(class, bs[q]), tb.Add(run[q+1], ex.i64(1)), ex.i64(0))
-	}
-	gstart := tb.Add(start, ex.i64(int64(L)))
-	glen := ex.i64(0)
-	for q := n; q >= 0; q-- {
-		glen = tb.Ite(tb.Eq(gstart, ex.i64(int64(q))), run[q], glen)
-	}
-	// fork on the match position and the length of the captured run: every later step
-	// (strconv.Atoi, comparisons) then works on concrete lengths
-	start = ex.i64(int64(ex.concInt(start, "regexp match position")))
-	gstart = tb.Add(start, ex.i64(int64(L)))
-	glen = ex.i64(0)
-	for q := n; q >= 0; q-- {
-		glen = tb.Ite(tb.Eq(gstart, ex.i64(int64(q))), run[q], glen)
-	}
-	glen = ex.i64(int64(ex.concInt(glen, "regexp capture length")))
-	whole := &StringV{Arr: s.Arr, Off: tb.Add(s.Off, start), Len: tb.Add(ex.i64(int64(L)), glen)}
-	group := &StringV{Arr: s.Arr, Off: tb.Add(s.Off, gstart), Len: glen}
+	whole := &StringV{Arr: s.Arr, Off: tb.Add(s.Off, ex.i64(int64(start))), Len: ex.i64(int64(L + glen))}
+	group := &StringV{Arr: s.Arr, Off: tb.Add(s.Off, ex.i64(int64(start+L))), Len: ex.i64(int64(glen))}
 	return ex.makeStringSlice([]*StringV{whole, group})
+}
+
+// FindStringSubmatchIndex: [start, end, capStart, capEnd] or nil
+func intrRegexpFindStringSubmatchIndex(ex *Exec, fn *ssa.Function, a []Value, fr *Frame) Value {
+	r, _ := ex.rxOf(a[0])
+	if r == nil {
+		panic(unsupported("FindStringSubmatchIndex on abstract regexp"))
+	}
+	s := a[1].(*StringV)
+	var idx []int
+	if gs, ok := ex.goString(s); ok {
+		idx = regexp.MustCompile(r.pat).FindStringSubmatchIndex(gs)
+		if idx == nil {
+			return &SliceV{Off: ex.i64(0), Len: ex.i64(0), Cap: ex.i64(0), Elem: types.Typ[types.Int]}
+		}
+	} else {
+		found, start, L, glen := ex.rxSubmatch(r, s, "FindStringSubmatchIndex")
+		if !found {
+			return &SliceV{Off: ex.i64(0), Len: ex.i64(0), Cap: ex.i64(0), Elem: types.Typ[types.Int]}
+		}
+		idx = []int{start, start + L + glen, start + L, start + L + glen}
+	}
+	var ts []*Term
+	for _, x := range idx {
+		ts = append(ts, ex.i64(int64(x)))
+	}
+	return ex.sliceFromTerms(ts, types.Typ[types.Int])
 }
 
 func (ex *Exec) zeroStringSlice() Value {
